@@ -456,15 +456,27 @@ impl<T: GseDecapMemory, C: CrcCalculator, MHEM: MandatoryHeaderExtensionManager>
             LabelType::ReUse => match self.last_label {
                 Some(Label::Broadcast) => {
                     self.last_label = None;
-                    return Err((DecapError::ErrorLabelBroadcastSaved, pkt_len));
+                    return Err(self.reject_and_give_back(
+                        pdu_buffer,
+                        DecapError::ErrorLabelBroadcastSaved,
+                        pkt_len,
+                    ));
                 }
                 Some(Label::ReUse) => {
                     self.last_label = None;
-                    return Err((DecapError::ErrorLabelReUseSaved, pkt_len));
+                    return Err(self.reject_and_give_back(
+                        pdu_buffer,
+                        DecapError::ErrorLabelReUseSaved,
+                        pkt_len,
+                    ));
                 }
                 None => {
                     self.last_label = None;
-                    return Err((DecapError::ErrorNoLabelSaved, pkt_len));
+                    return Err(self.reject_and_give_back(
+                        pdu_buffer,
+                        DecapError::ErrorNoLabelSaved,
+                        pkt_len,
+                    ));
                 }
                 _ => self.last_label.unwrap(),
             },
